@@ -203,10 +203,10 @@ Section First.
   Proof.
     split.
     - intros H. assert (X : In i (map l_id (locals_of sc))) by (rewrite f_locals_of; exact H).
-      pose proof (bp_cover_local sc (locals_of sc) (found_in c0 (cand_of sc c0)) i X) as Y.
+      pose proof (bp_cover_local sc (live_crds sc c0) (locals_of sc) (found_in sc c0 (cand_of sc c0)) i X) as Y.
       rewrite <- plan_of_eq in Y. rewrite HINV in Y. destruct Y as [Y|[]]. exact Y.
     - intros H. unfold apply_ids in H. apply in_map_iff in H. destruct H as [p [<- Hp]].
-      rewrite plan_of_eq in Hp. destruct (bp_apply_is_local sc _ _ p Hp) as [l [-> Hl]].
+      rewrite plan_of_eq in Hp. destruct (bp_apply_is_local sc _ _ _ p Hp) as [l [-> Hl]].
       rewrite f_locals_of in Hl. cbn. apply in_map. exact Hl.
   Qed.
 
@@ -259,9 +259,13 @@ Section First.
     inv c1 = Some L /\ sorted_n L /\ NoDup L /\
     (forall i, In i L -> fo c1 i <> None) /\
     (forall i, In i lids -> In i L) /\
-    (o_prune (sc_opts sc) = true -> forall i, In i L -> In i lids).
+    (o_prune (sc_opts sc) = true -> forall i, In i L -> In i lids) /\
+    (* dyn: a tracked id outside the manifest has a kind the mapper knows in c1 (it was fetched as a prune
+       candidate of the first run, which ran without pruning: its CRD is still live) *)
+    (forall i, In i L -> ~ In i lids -> kind_known sc (live_crds sc c1) i = true).
   Proof.
     destruct f_mon as [l [EI [EL EM]]]. exists l. split; [exact EI|].
+    assert (ELK := EL).
     destruct (run_Cn sc c0 f_lnd) as [CN1 CN2].
     rewrite (out_final_run sc c0) in *. cbn [norm_cluster inv] in EI. unfold stored in EI.
     destruct (inv (r_cl (run_state sc c0))) as [l0|] eqn:E0; [|discriminate]. cbn in EI. injection EI as EI.
@@ -278,7 +282,21 @@ Section First.
         unfold fo. rewrite Hc. discriminate. }
     split.
     { intros i Hi. apply EL. left. apply f_applied_all. apply f_local_apply. exact Hi. }
-    intros EP i Hi. apply EL in Hi. unfold unpruned1 in Hi. rewrite EP in Hi.
-    destruct Hi as [Hi|[_ []]]. apply f_local_apply. apply f_applied_sub. exact Hi.
+    split.
+    { intros EP i Hi. apply EL in Hi. unfold unpruned1 in Hi. rewrite EP in Hi.
+      destruct Hi as [Hi|[_ []]]. apply f_local_apply. apply f_applied_sub. exact Hi. }
+    intros i Hi Hn. apply ELK in Hi. destruct Hi as [Hi|[Hp Hu]].
+    { exfalso. apply Hn. apply f_local_apply. apply f_applied_sub. exact Hi. }
+    unfold unpruned1 in Hu. destruct (o_prune (sc_opts sc)) eqn:EP; [destruct Hu|].
+    rewrite plan_of_eq, bp_prune_all_eq in Hu. unfold pruneA in Hu. rewrite map_map in Hu. cbn [pobj_of_live p_id] in Hu.
+    apply in_map_iff in Hu. destruct Hu as [c [<- Hc]]. apply found_in_In_iff in Hc. destruct Hc as [_ [_ K0]].
+    unfold kind_known in *. destruct (u_crd (uinfo_of sc (c_id c))) as [k|]; [|reflexivity].
+    apply memn_In in K0. apply memn_In. unfold live_crds in *. apply filter_In in K0. destruct K0 as [K1 K2].
+    apply filter_In. split; [|exact K2].
+    assert (LV : fo (r_cl (run_state sc c0)) k <> None).
+    { apply (CN2 eq_refl). unfold fo. intros X. apply find_obj_none in X. contradiction. }
+    apply norm_live in LV. unfold fo in LV.
+    destruct (in_dec Nat.eq_dec k (map c_id (objs (norm_cluster (r_cl (run_state sc c0)))))) as [Y|Y]; [exact Y|].
+    apply find_obj_none in Y. contradiction.
   Qed.
 End First.
